@@ -264,11 +264,36 @@ example : ∃ s, amachine.run amachine.init [.poolCreate 1 false, .schedCreate 1
     s.req 1 = { finish := true } ∧ s.req 2 = {} ∧ s.joined 1 = false :=
   ⟨_, rfl, by decide, by decide, by decide⟩
 
-/-- rejected (still outside the model after the repair): the replaced scheduler keeps `p_replace_sched`; reused on a
-running stream and replaced *again* there, `xstream_update_main_sched` would take its "overwrite" branch on the
-dangling pointer (candidate defect, repro corpus/findings/cand_stop_reused_replaced_sched_replaced_again.c) -/
-example : amachine.run amachine.init (reuseReplacedTrace ++ [.poolCreate 3 false, .schedCreate 3 [3] true, .replace 2 3])
-    = none := by decide
+/-- **a replacement that has been carried out is forgotten**: in every reachable state no scheduler object still
+carries the `p_replace_sched` / `p_replace_waiter` of a replacement that was already executed
+(`thread_main_sched_func` resets both fields of the old scheduler when it honours REPLACE, /repo 879f3ef).  A
+user-owned scheduler that was replaced and is attached to a stream again therefore starts like a new one: a later
+same-stream replacement is an ordinary first replacement, never the "overwrite" branch of
+`xstream_update_main_sched` on dangling pointers. -/
+theorem replace_done_forgets_pending (s : Acc) (h : amachine.Reachable s) (k : SchedId) : s.stale k = false :=
+  stale_reachable s h k
+
+/-- … so on a running stream any unused scheduler can replace the current one, whatever the current one did before -/
+theorem replace_of_reused_sched_enabled (s : Acc) (h : amachine.Reachable s) (x : StreamId) (o k : SchedId)
+    (r : SchedRec) (hm : s.main? x = some o) (hk : s.sched? k = some r) (hu : r.used = .notUsed)
+    (ho : ({ s with scheds := setUsed s.scheds k .main } : Acc).sched? o ≠ none) :
+    (astep s (.replace x k)).isSome = true := by
+  have hst := replace_done_forgets_pending s h o
+  simp only [astep, hm, hk, hu, hst]
+  cases hq : ({ s with scheds := setUsed s.scheds k .main } : Acc).sched? o with
+  | none => exact absurd hq ho
+  | some ro =>
+    simp only [Acc.sched?] at hq
+    simp [Acc.sched?, hq]
+
+/-- F14, third repro (rejected by the model before 879f3ef, accepted now): the replaced user-owned scheduler 1 runs
+stream 2 and is replaced there again by scheduler 3 — an ordinary replacement: scheduler 3 runs stream 2, scheduler 2
+still runs stream 1, scheduler 1 survives unused with REPLACE and nothing pending -/
+example : ∃ s, amachine.run amachine.init
+      (reuseReplacedTrace ++ [.poolCreate 3 false, .schedCreate 3 [3] true, .replace 2 3]) = some s ∧
+    s.main? 2 = some 3 ∧ s.main? 1 = some 2 ∧ s.req 3 = {} ∧ (s.req 1).replace = true ∧ s.stale 1 = false ∧
+    s.scheds.map (fun r => (r.id, r.used)) = [(3, .main), (2, .main), (1, .notUsed)] :=
+  ⟨_, rfl, by decide, by decide, by decide, by decide, by decide, by decide⟩
 
 /-! ## 3. the join request reaches the running scheduler -/
 
